@@ -7,6 +7,9 @@
  */
 
 #include "MainSolver.h"
+#ifdef OPENSMT_VERIF_HOOKS
+#include <common/VerifHooks.h>
+#endif
 
 #include <common/ApiException.h>
 #include <itehandler/IteHandler.h>
@@ -75,6 +78,9 @@ void MainSolver::push() {
     preprocessor.push();
     frameTerms.push(newFrameTerm(frames.last().getId()));
     termNames.pushScope();
+#ifdef OPENSMT_VERIF_HOOKS
+    if (verif::on()) { verif::raw("PUSH\t" + std::to_string(frames.last().getId())); }
+#endif
     if (alreadyUnsat) { rememberLastFrameUnsat(); }
 }
 
@@ -93,6 +99,9 @@ bool MainSolver::pop() {
     frames.pop();
     preprocessor.pop();
     termNames.popScope();
+#ifdef OPENSMT_VERIF_HOOKS
+    if (verif::on()) { verif::raw("POP"); }
+#endif
     firstNotSimplifiedFrame = std::min(firstNotSimplifiedFrame, frames.frameCount());
     if (not isLastFrameUnsat()) { getSMTSolver().restoreOK(); }
     return true;
@@ -107,6 +116,9 @@ void MainSolver::insertFormula(PTRef fla) {
     if (logic.getSortRef(fla) != logic.getSort_bool()) {
         throw ApiException("Top-level assertion sort must be Bool, got " + logic.sortToString(logic.getSortRef(fla)));
     }
+#ifdef OPENSMT_VERIF_HOOKS
+    if (verif::on()) { verif::raw("FRAME\t" + std::to_string(frames.last().getId()) + "\t" + verif::term(logic, fla)); }
+#endif
     // TODO: Move this to preprocessing of the formulas
     fla = IteHandler(logic, getPartitionManager().getNofPartitions()).rewrite(fla);
 
@@ -311,6 +323,9 @@ std::unique_ptr<InterpolationContext> MainSolver::getInterpolationContext() {
 }
 
 sstat MainSolver::giveToSolver(PTRef root, FrameId push_id) {
+#ifdef OPENSMT_VERIF_HOOKS
+    if (verif::on()) { verif::raw("ROOT\t" + std::to_string(push_id) + "\t" + verif::term(logic, root)); }
+#endif
 
     struct ClauseCallBack : public Cnfizer::ClauseCallBack {
         std::vector<vec<Lit>> clauses;
@@ -350,6 +365,9 @@ sstat MainSolver::check() {
     sstat rval = simplifyFormulas();
 
     if (config.dump_query()) printCurrentAssertionsAsQuery();
+#ifdef OPENSMT_VERIF_HOOKS
+    if (verif::on()) { verif::raw(std::string("CHECK\t") + (rval == s_False ? "preprocess-unsat" : "solve")); }
+#endif
 
     if (rval == s_Undef) {
         try {
